@@ -15,7 +15,7 @@ def _len_args(lenf):
 STR_ORDER_DEFAULT = ("alphabet", "substr", "pattern", "len")
 
 
-def build(spec, *, wrapper=None, str_order=STR_ORDER_DEFAULT):
+def build(spec, *, wrapper=None, str_order=STR_ORDER_DEFAULT, order_rng=None):
     """Build the schema.  `wrapper(schema, n)` wraps nodes carrying "wrap": n (C16)."""
     from d42 import optional, schema
     k = spec["k"]
@@ -25,28 +25,22 @@ def build(spec, *, wrapper=None, str_order=STR_ORDER_DEFAULT):
         s = getattr(schema, k)
         if spec.get("value") is not None:
             s = s(spec["value"])
-    elif k == "int":
-        s = schema.int
+    elif k in ("int", "float"):
+        s = getattr(schema, k)
         if spec.get("value") is not None:
             s = s(spec["value"])
-        if spec.get("min") is not None:
-            s = s.min(spec["min"])
-        if spec.get("max") is not None:
-            s = s.max(spec["max"])
-    elif k == "float":
-        s = schema.float
-        if spec.get("value") is not None:
-            s = s(spec["value"])
-        if spec.get("min") is not None:
-            s = s.min(spec["min"])
-        if spec.get("max") is not None:
-            s = s.max(spec["max"])
-        if spec.get("precision") is not None:
-            s = s.precision(spec["precision"])
+        names = [f for f in ("min", "max", "precision") if spec.get(f) is not None]
+        if order_rng is not None:
+            order_rng.shuffle(names)
+        for f in names:
+            s = getattr(s, f)(spec[f])
     elif k == "str":
         s = schema.str
         if spec.get("value") is not None:
             s = s(spec["value"])
+        if order_rng is not None:
+            str_order = list(str_order)
+            order_rng.shuffle(str_order)
         for f in str_order:
             if spec.get(f) is None:
                 continue
@@ -62,16 +56,16 @@ def build(spec, *, wrapper=None, str_order=STR_ORDER_DEFAULT):
         s = schema.list
         f = spec.get("form", "bare")
         if f == "typed":
-            s = s(build(spec["type"], wrapper=wrapper))
+            s = s(build(spec["type"], wrapper=wrapper, order_rng=order_rng))
         elif f == "elems":
-            s = s([... if e == ELL else build(e, wrapper=wrapper) for e in spec["elems"]])
+            s = s([... if e == ELL else build(e, wrapper=wrapper, order_rng=order_rng) for e in spec["elems"]])
         if spec.get("len") is not None:
             s = s.len(*_len_args(spec["len"]))
     elif k == "dict":
         s = schema.dict
         if spec.get("keys") is not None:
             d = {}
-            entries = [(optional(key) if opt else key, build(sub, wrapper=wrapper))
+            entries = [(optional(key) if opt else key, build(sub, wrapper=wrapper, order_rng=order_rng))
                        for key, sub, opt in spec["keys"]]
             if spec.get("relaxed"):
                 pos = spec.get("relaxed_pos")
@@ -84,9 +78,9 @@ def build(spec, *, wrapper=None, str_order=STR_ORDER_DEFAULT):
     elif k == "any":
         s = schema.any
         if spec.get("types") is not None:
-            s = s(*[build(t, wrapper=wrapper) for t in spec["types"]])
+            s = s(*[build(t, wrapper=wrapper, order_rng=order_rng) for t in spec["types"]])
     elif k == "alias":
-        s = schema.alias(spec["name"], build(spec["target"], wrapper=wrapper))
+        s = schema.alias(spec["name"], build(spec["target"], wrapper=wrapper, order_rng=order_rng))
     else:
         raise ValueError(k)
     n = spec.get("wrap", 0)
